@@ -39,7 +39,10 @@ def emitted(ctx, A, B):
     return [json.loads(t[1]) for t in res.tuples('SCN')]
 
 
-def write_input(path, rows, B, with_data=True, dtype=np.float32, idx_dtype=np.int64):
+WIDE0 = 2 ** 53 - 1      # wide values: entry k is stored as the odd 64-bit integer 2^53 - 1 + 2k (no double holds it)
+
+
+def write_input(path, rows, B, with_data=True, dtype=np.float32, idx_dtype=np.int64, wide=False):
     indptr = [0]
     indices = []
     for r in rows:
@@ -48,7 +51,9 @@ def write_input(path, rows, B, with_data=True, dtype=np.float32, idx_dtype=np.in
     with h5py.File(path, 'w') as f:
         f.create_dataset('indptr', data=np.array(indptr, dtype=idx_dtype))
         f.create_dataset('indices', data=np.array(indices, dtype=idx_dtype))
-        if with_data:
+        if with_data and wide:
+            f.create_dataset('data', data=(WIDE0 + 2 * np.arange(1, len(indices) + 1, dtype=np.int64)))
+        elif with_data:
             f.create_dataset('data', data=np.arange(1, len(indices) + 1).astype(dtype))
     return len(indices)
 
@@ -58,11 +63,13 @@ def expected_slice(s, l, h):
     return ([p[l + v] - p[l] for v in range(h - l + 1)], s['indices'][p[l]:p[h]], s['dat'][p[l]:p[h]])
 
 
-def read_out(path, with_data):
+def read_out(path, with_data, wide=False):
     with h5py.File(path, 'r') as f:
         ptr = f['indptr'][()].astype(int).tolist()
         idx = f['indices'][()].astype(int).tolist()
         dat = f['data'][()].astype(int).tolist() if with_data and 'data' in f else None
+        if wide and dat is not None:
+            dat = [(int(v) - WIDE0) // 2 if str(f['data'].dtype) == 'int64' and (int(v) - WIDE0) % 2 == 0 else -1 for v in dat]
     return ptr, idx, dat
 
 
@@ -112,6 +119,30 @@ def _serial_case(args):
                 except Exception as e:
                     sig, msg = classify_exc(e, len(want[1]), with_data, False, nnz, A)
                     out.append((sig, f'rows={s["rows"]} slice={(l, h)} data={with_data}: {msg}'))
+        # 64-bit integers that no double holds, full range, both serial entry points
+        src = os.path.join(d, 'in_wide.h5')
+        nnz = write_input(src, s['rows'], B, True, wide=True)
+        want = expected_slice(s, 0, B)
+        for entry in ('transpose', 'csc_to_csr'):
+            n_eval += 1
+            dst = os.path.join(d, f'out_wide_{entry}.h5')
+            try:
+                with h5py.File(src, 'r') as f:
+                    with warnings.catch_warnings():
+                        warnings.simplefilter('ignore')
+                        if entry == 'transpose':
+                            transpose_sparse_matrix_on_disk(
+                                indices_handle=f['indices'], indptr_handle=f['indptr'], data_handle=f['data'],
+                                indices_max=B, max_gb=1, output_path=dst, verbose=False)
+                        else:
+                            csc_to_csr_on_disk(csc_group=f, csr_path=dst, array_shape=(B, A), max_gb=1)
+                got = read_out(dst, True, wide=True)
+                if got != (want[0], want[1], want[2]):
+                    out.append((f'transpose:wide-integers', f'{entry} rows={s["rows"]} (64-bit integers beyond 2^53): got '
+                                                            f'{got}, want {want}'))
+            except Exception as e:
+                sig, msg = classify_exc(e, len(want[1]), True, False, nnz, A)
+                out.append((sig, f'{entry} wide rows={s["rows"]}: {msg}'))
         # csc_to_csr_on_disk on the full range
         src = os.path.join(d, 'in_True.h5')
         dst = os.path.join(d, 'csr.h5')
